@@ -27,7 +27,7 @@ class C01(PropertyCheck):
             "separated by junk, trailing junk) parsed by the library; (C) the game files in resources/test; (D) exhaustive archives of <= 3 "
             "cells over {none, 2 strings, 2 pointers, c-string} x label sets x both endiannesses. Non-trivial = content with at least one "
             "string or c-string and one pointer or label; distinct = distinct case line.")
-    assumptions = ["A-codec: strings are Shift-JIS byte lists that encoding_rs round-trips losslessly (table checked by harness kind `sjis`)",
+    assumptions = ["A-codec: strings are Shift-JIS byte lists that encoding_rs round-trips losslessly (table checked by harness kind `sjischk`)",
                    "big-endian label names are drawn from ASCII + kana, where Rust's String order equals the byte order of the encoded names"]
 
     def __init__(self):
